@@ -85,7 +85,8 @@ def sign(doc, node_ns, node_tag, node_id, keyname, id_attr='ID'):
                     '%s:%s' % (node_ns, node_tag), '--node-id', node_id, '--output', out, src])
     if rc != 0 or not os.path.exists(out):
         raise RuntimeError('stand-in signing failed: %s' % err)
-    return _strip_decl(open(out, 'rb').read()).decode('utf-8')
+    with open(out, 'rb') as f:
+        return _strip_decl(f.read()).decode('utf-8')
 
 
 ENC_TEMPLATE = ('<xenc:EncryptedData xmlns:xenc="%s" xmlns:ds="%s" Id="ED" Type="http://www.w3.org/2001/04/xmlenc#Element">'
@@ -111,7 +112,8 @@ def encrypt_element(doc, xpath, keyname, method='tripledes-cbc'):
                     '--xml-data', src, '--node-xpath', xpath, '--output', out, tmpl])
     if rc != 0 or not os.path.exists(out):
         raise RuntimeError('stand-in encryption failed: %s' % err)
-    return _strip_decl(open(out, 'rb').read()).decode('utf-8')
+    with open(out, 'rb') as f:
+        return _strip_decl(f.read()).decode('utf-8')
 
 
 def xp(*names):
